@@ -48,6 +48,10 @@ func (a baseAlgo) SelectBeacons(_ context.Context, beacons []Beacon, resultSize 
 	if len(beacons) <= resultSize {
 		return beacons
 	}
+	if resultSize <= 1 {
+		// There is no "shortest k-1" set to compare diversity with: serve the shortest beacon.
+		return beacons[:max(resultSize, 0)]
+	}
 
 	result := make([]Beacon, resultSize-1, resultSize)
 	copy(result, beacons[:resultSize-1])
